@@ -38,6 +38,8 @@ var (
 	datasets   = []string{"ds", "my ds/ü%41+x"}
 )
 
+const reloadedIDField = "tid2" // joins IDFields.TraceNames by the live reload of pass 1
+
 var instant = time.Date(2031, 7, 9, 23, 59, 58, 123456789, time.UTC)
 
 type caseDesc struct {
@@ -93,312 +95,336 @@ func main() {
 		pool <- n
 	}
 
-	dims := []int{len(traceKinds), len(probeVals), len(idVariants), len(listeners), len(stressVals), len(queueVals), len(encodings), len(contentEnc), len(datasets)}
-	enumx.Each(r, "routes", dims, workers, func(idx []int) {
-		n := <-pool
-		defer func() { pool <- n }()
-		c := caseDesc{Trace: traceKinds[idx[0]], Probe: probeVals[idx[1]], ID: idVariants[idx[2]], Listener: listeners[idx[3]].String(),
-			Stress: stressVals[idx[4]], Queue: queueVals[idx[5]], Enc: encodings[idx[6]], CE: contentEnc[idx[7]], Dataset: datasets[idx[8]]}
-		if c.Trace == "none" {
-			c.ID = noneVariant[idx[2]]
-		}
-		l := listeners[idx[3]]
-
-		// ---- build the subject event
-		fields := clientFields("subject")
-		var traceID string
-		switch c.Trace {
-		case "self":
-			traceID = selfID
-		case "peer":
-			traceID = peerID
-		}
-		var idField codec.Field
-		hasIDField := true
-		switch {
-		case traceID != "":
-			idField = codec.F(c.ID, codec.Str(traceID))
-		case c.ID == "empty-string-id":
-			idField = codec.F("trace.trace_id", codec.Str(""))
-		case c.ID == "non-string-id":
-			idField = codec.F("traceId", codec.Int(12345))
-		default:
-			hasIDField = false
-		}
-		if hasIDField {
-			// ID field in the middle of the payload
-			fields = append(fields[:2:2], append([]codec.Field{idField}, fields[2:]...)...)
-		}
-		switch c.Probe {
-		case "true":
-			fields = append(fields, codec.F("meta.refinery.probe", codec.Bool(true)))
-		case "false":
-			fields = append(fields, codec.F("meta.refinery.probe", codec.Bool(false)))
-		}
-		tv := codec.Time(instant, 0)
-		subject := codec.Event{TimeText: instant.Format(time.RFC3339Nano), SampleRate: 7, Data: fields}
-		isMsgpack := strings.HasPrefix(c.Enc, "msgpack")
-		if isMsgpack {
-			subject.TimeVal = &tv
-		}
-		mk := func(marker string, extra ...codec.Field) codec.Event {
-			e := codec.Event{TimeText: instant.Add(time.Hour).Format(time.RFC3339Nano), SampleRate: 3, Data: append(clientFields(marker), extra...)}
-			if isMsgpack {
-				t2 := codec.Time(instant.Add(time.Hour), 0)
-				e.TimeVal = &t2
+	// pass 0: the configuration the nodes started with. pass 1: IDFields.TraceNames was extended by a live reload
+	// (reload callbacks fired) with a name the nodes did not know at start-up, and the events carry their ID there.
+	for pass := 0; pass < 2; pass++ {
+		pass := pass
+		idNames, passName, nCE, nDS := idVariants, "routes", len(contentEnc), len(datasets)
+		if pass == 1 {
+			idNames, passName, nCE, nDS = []string{reloadedIDField, reloadedIDField, reloadedIDField}, "routes-after-id-field-reload", 1, 1
+			var ns []*pipeline.Node
+			for i := 0; i < workers; i++ {
+				ns = append(ns, <-pool)
 			}
-			return e
+			for _, n := range ns {
+				n.Cfg.Mux.Lock()
+				n.Cfg.TraceIdFieldNames = append([]string{reloadedIDField}, n.Cfg.TraceIdFieldNames...)
+				n.Cfg.Mux.Unlock()
+				n.Cfg.Reload()
+				pool <- n
+			}
 		}
-		ct := codec.CTJSON
-		if isMsgpack {
-			ct = codec.CTMsgpack
-		}
-		var req codec.Request
-		omitsRate := strings.HasSuffix(c.Enc, "/subject-omits-rate")
-		if omitsRate {
-			subject.SampleRate = 0
-		}
-		companions := strings.Contains(c.Enc, "+companions")
-		switch {
-		case strings.HasSuffix(c.Enc, "-single"):
-			req = codec.SingleEvent(c.Dataset, apiKey, ct, subject)
-		case companions:
-			req = codec.Batch(c.Dataset, apiKey, ct,
-				mk("before-none"), mk("before-self", codec.F("trace.trace_id", codec.Str(selfID))),
-				subject,
-				mk("after-peer", codec.F("traceId", codec.Str(peerID))), mk("after-none"))
-		default:
-			req = codec.Batch(c.Dataset, apiKey, ct, subject)
-		}
-		req = req.Compressed(c.CE)
+		dims := []int{len(traceKinds), len(probeVals), len(idNames), len(listeners), len(stressVals), len(queueVals), len(encodings), nCE, nDS}
+		enumx.Each(r, passName, dims, workers, func(idx []int) {
+			n := <-pool
+			defer func() { pool <- n }()
+			c := caseDesc{Trace: traceKinds[idx[0]], Probe: probeVals[idx[1]], ID: idNames[idx[2]], Listener: listeners[idx[3]].String(),
+				Stress: stressVals[idx[4]], Queue: queueVals[idx[5]], Enc: encodings[idx[6]], CE: contentEnc[idx[7]], Dataset: datasets[idx[8]]}
+			if c.Trace == "none" {
+				c.ID = noneVariant[idx[2]]
+			}
+			l := listeners[idx[3]]
 
-		// ---- environment
-		n.Collector.Full = c.Queue == "full"
-		n.Collector.StressOn = c.Stress != "off"
-		n.Collector.StressUnhandled = c.Stress == "unhandled"
-		n.Collector.StressDecide = func(string) (uint, bool, string) { return 1, c.Stress != "drop", "c19" }
-
-		resp := n.Do(l, req)
-		n.Flush()
-		var o obs
-		for _, s := range n.Sent() {
-			switch s.Dest {
-			case "upstream":
-				o.upstream = append(o.upstream, s)
+			// ---- build the subject event
+			fields := clientFields("subject")
+			var traceID string
+			switch c.Trace {
+			case "self":
+				traceID = selfID
 			case "peer":
-				o.peer = append(o.peer, s)
+				traceID = peerID
+			}
+			var idField codec.Field
+			hasIDField := true
+			switch {
+			case traceID != "":
+				idField = codec.F(c.ID, codec.Str(traceID))
+			case c.ID == "empty-string-id":
+				idField = codec.F("trace.trace_id", codec.Str(""))
+			case c.ID == "non-string-id":
+				idField = codec.F("traceId", codec.Int(12345))
 			default:
-				o.other = append(o.other, s)
+				hasIDField = false
 			}
-		}
-		o.coll = n.Collector.Records()
-		problems := n.DecodeProblems()
-		n.Net.Reset()
-		n.Collector.Reset()
-
-		fail := func(class, what string) {
-			r.Violation(fmt.Sprintf("route:%s", class), fmt.Sprintf("%s; case=%s; http=%d %s", what, ev.J(c), resp.Status, trunc(string(resp.Body), 200)), c)
-		}
-		if len(problems) > 0 {
-			fail("undecodable-output", strings.Join(problems, "; "))
-			return
-		}
-		if len(o.other) > 0 {
-			fail("unknown-destination", fmt.Sprintf("%d event(s) sent to an address that is neither upstream nor a peer: %s", len(o.other), o.other[0].BaseURL))
-			return
-		}
-
-		// ---- where did the subject go?
-		var got []string
-		var upS, peerS []pipeline.Sent
-		for _, s := range o.upstream {
-			if marked(s, "subject") {
-				got = append(got, "upstream")
-				upS = append(upS, s)
+			if hasIDField {
+				// ID field in the middle of the payload
+				fields = append(fields[:2:2], append([]codec.Field{idField}, fields[2:]...)...)
 			}
-		}
-		for _, s := range o.peer {
-			if marked(s, "subject") {
-				pv, ok := s.Event.Field("meta.refinery.probe")
-				if ok && pv.Kind == codec.KBool && pv.Bool {
-					got = append(got, "peer-probe")
-				} else {
-					got = append(got, "peer")
+			switch c.Probe {
+			case "true":
+				fields = append(fields, codec.F("meta.refinery.probe", codec.Bool(true)))
+			case "false":
+				fields = append(fields, codec.F("meta.refinery.probe", codec.Bool(false)))
+			}
+			tv := codec.Time(instant, 0)
+			subject := codec.Event{TimeText: instant.Format(time.RFC3339Nano), SampleRate: 7, Data: fields}
+			isMsgpack := strings.HasPrefix(c.Enc, "msgpack")
+			if isMsgpack {
+				subject.TimeVal = &tv
+			}
+			mk := func(marker string, extra ...codec.Field) codec.Event {
+				e := codec.Event{TimeText: instant.Add(time.Hour).Format(time.RFC3339Nano), SampleRate: 3, Data: append(clientFields(marker), extra...)}
+				if isMsgpack {
+					t2 := codec.Time(instant.Add(time.Hour), 0)
+					e.TimeVal = &t2
 				}
-				peerS = append(peerS, s)
+				return e
 			}
-		}
-		for _, rec := range o.coll {
-			if rec.Data["marker"] == "subject" {
-				got = append(got, "collector-"+rec.Via+"-"+rec.Result)
+			ct := codec.CTJSON
+			if isMsgpack {
+				ct = codec.CTMsgpack
 			}
-		}
-		sort.Strings(got)
+			var req codec.Request
+			omitsRate := strings.HasSuffix(c.Enc, "/subject-omits-rate")
+			if omitsRate {
+				subject.SampleRate = 0
+			}
+			companions := strings.Contains(c.Enc, "+companions")
+			switch {
+			case strings.HasSuffix(c.Enc, "-single"):
+				req = codec.SingleEvent(c.Dataset, apiKey, ct, subject)
+			case companions:
+				req = codec.Batch(c.Dataset, apiKey, ct,
+					mk("before-none"), mk("before-self", codec.F("trace.trace_id", codec.Str(selfID))),
+					subject,
+					mk("after-peer", codec.F("traceId", codec.Str(peerID))), mk("after-none"))
+			default:
+				req = codec.Batch(c.Dataset, apiKey, ct, subject)
+			}
+			req = req.Compressed(c.CE)
 
-		// ---- the route the statement prescribes
-		var want []string
-		class := c.Trace
-		switch {
-		case c.Probe == "true":
-			class = "probe"
-			want = nil // discarded
-		case c.Trace == "none":
-			want = []string{"upstream"}
-		case c.Stress == "keep":
-			// stress relief decided the trace immediately and kept it: the collector has handled the span; only a
-			// probe marker may additionally be forwarded to the owner (never a second real copy).
-			want = []string{"collector-immediate-kept"}
-			if c.Trace == "peer" {
-				want = append(want, "peer-probe")
-			}
-		case c.Stress == "drop":
-			want = []string{"collector-immediate-dropped"}
-		case c.Trace == "self":
-			res := "queued"
-			if c.Queue == "full" {
-				res = "full"
-			}
-			want = []string{"collector-" + c.Listener + "-" + res}
-		case c.Trace == "peer":
-			want = []string{"peer"}
-		}
-		sort.Strings(want)
-		r.Distinct("distinct_nontrivial", class+"|"+c.Stress+"|"+c.Listener+"|"+strings.Join(want, "+"))
-		r.Distinct("observed_routes", strings.Join(got, "+"))
-		if strings.Join(got, "+") != strings.Join(want, "+") {
-			fail(fmt.Sprintf("%s/stress-%s:want[%s]got[%s]", class, c.Stress, strings.Join(want, "+"), strings.Join(got, "+")),
-				fmt.Sprintf("subject event (%s) took route(s) [%s], the statement prescribes [%s]", class, strings.Join(got, ", "), strings.Join(want, ", ")))
-			return
-		}
+			// ---- environment
+			n.Collector.Full = c.Queue == "full"
+			n.Collector.StressOn = c.Stress != "off"
+			n.Collector.StressUnhandled = c.Stress == "unhandled"
+			n.Collector.StressDecide = func(string) (uint, bool, string) { return 1, c.Stress != "drop", "c19" }
 
-		// ---- companions must each take exactly their own route too (no cross-talk inside a batch)
-		if companions {
-			cnt := map[string]int{}
+			resp := n.Do(l, req)
+			n.Flush()
+			var o obs
+			for _, s := range n.Sent() {
+				switch s.Dest {
+				case "upstream":
+					o.upstream = append(o.upstream, s)
+				case "peer":
+					o.peer = append(o.peer, s)
+				default:
+					o.other = append(o.other, s)
+				}
+			}
+			o.coll = n.Collector.Records()
+			problems := n.DecodeProblems()
+			n.Net.Reset()
+			n.Collector.Reset()
+
+			fail := func(class, what string) {
+				if pass == 1 {
+					class += ":after-id-field-reload"
+				}
+				r.Violation(fmt.Sprintf("route:%s", class), fmt.Sprintf("%s; case=%s; http=%d %s", what, ev.J(c), resp.Status, trunc(string(resp.Body), 200)), c)
+			}
+			if len(problems) > 0 {
+				fail("undecodable-output", strings.Join(problems, "; "))
+				return
+			}
+			if len(o.other) > 0 {
+				fail("unknown-destination", fmt.Sprintf("%d event(s) sent to an address that is neither upstream nor a peer: %s", len(o.other), o.other[0].BaseURL))
+				return
+			}
+
+			// ---- where did the subject go?
+			var got []string
+			var upS, peerS []pipeline.Sent
 			for _, s := range o.upstream {
-				if m, ok := s.Event.Field("marker"); ok && m.S != "subject" {
-					cnt["upstream:"+m.S]++
+				if marked(s, "subject") {
+					got = append(got, "upstream")
+					upS = append(upS, s)
 				}
 			}
 			for _, s := range o.peer {
-				if m, ok := s.Event.Field("marker"); ok && m.S != "subject" {
-					cnt["peer:"+m.S]++
+				if marked(s, "subject") {
+					pv, ok := s.Event.Field("meta.refinery.probe")
+					if ok && pv.Kind == codec.KBool && pv.Bool {
+						got = append(got, "peer-probe")
+					} else {
+						got = append(got, "peer")
+					}
+					peerS = append(peerS, s)
 				}
 			}
 			for _, rec := range o.coll {
-				if m, _ := rec.Data["marker"].(string); m != "subject" {
-					cnt["collector:"+m]++
+				if rec.Data["marker"] == "subject" {
+					got = append(got, "collector-"+rec.Via+"-"+rec.Result)
 				}
 			}
-			wantC := map[string]int{"upstream:before-none": 1, "upstream:after-none": 1, "collector:before-self": 1, "peer:after-peer": 1}
-			if c.Stress == "keep" {
-				// after-peer: immediate + probe to peer; before-self: immediate only
-				wantC = map[string]int{"upstream:before-none": 1, "upstream:after-none": 1, "collector:before-self": 1, "collector:after-peer": 1, "peer:after-peer": 1}
-			} else if c.Stress == "drop" {
-				wantC = map[string]int{"upstream:before-none": 1, "upstream:after-none": 1, "collector:before-self": 1, "collector:after-peer": 1}
-			}
-			if ev.J(cnt) != ev.J(wantC) {
-				fail("companions", fmt.Sprintf("other events of the same batch were routed %s, expected %s", ev.J(cnt), ev.J(wantC)))
-				return
-			}
-		}
+			sort.Strings(got)
 
-		// ---- attribute preservation
-		checkAttrs := func(s pipeline.Sent, where string, wantHost string) bool {
-			if s.BaseURL != wantHost {
-				fail(where+":destination", fmt.Sprintf("sent to %s, owner/destination is %s", s.BaseURL, wantHost))
-				return false
-			}
-			if s.APIKey != apiKey {
-				fail(where+":apikey", fmt.Sprintf("forwarded with API key %q, client sent %q", s.APIKey, apiKey))
-				return false
-			}
-			if s.Dataset != c.Dataset {
-				fail(where+":dataset", fmt.Sprintf("forwarded to dataset %q, client sent %q", s.Dataset, c.Dataset))
-				return false
-			}
-			if omitsRate {
-				// nothing supplied = rate 1: forwarded without a rate or with 1, never with a neighbour's
-				if s.Event.HasSampleRate && s.Event.SampleRate != 1 {
-					fail(where+":samplerate-invented", fmt.Sprintf("forwarded sample rate %s, the client supplied none (the batch members before and after it carry 3)", s.Event.SampleRateVal.Canon()))
-					return false
+			// ---- the route the statement prescribes
+			var want []string
+			class := c.Trace
+			switch {
+			case c.Probe == "true":
+				class = "probe"
+				want = nil // discarded
+			case c.Trace == "none":
+				want = []string{"upstream"}
+			case c.Stress == "keep":
+				// stress relief decided the trace immediately and kept it: the collector has handled the span; only a
+				// probe marker may additionally be forwarded to the owner (never a second real copy).
+				want = []string{"collector-immediate-kept"}
+				if c.Trace == "peer" {
+					want = append(want, "peer-probe")
 				}
-			} else if !s.Event.HasSampleRate || s.Event.SampleRate != 7 {
-				fail(where+":samplerate", fmt.Sprintf("forwarded sample rate %s, client sent 7", s.Event.SampleRateVal.Canon()))
-				return false
-			}
-			if !s.Event.HasTime || !s.Event.Time.Equal(instant) {
-				fail(where+":timestamp", fmt.Sprintf("forwarded time %s, client sent %s", s.Event.TimeVal.Canon(), instant.Format(time.RFC3339Nano)))
-				return false
-			}
-			// fields: every client field with the same value; additions only under the reserved meta. prefix
-			wantF := map[string]string{}
-			for _, f := range fields {
-				wantF[f.Key] = loose(f.Val)
-			}
-			gotF := map[string]string{}
-			for _, kv := range s.Event.Data.Map {
-				if _, dup := gotF[kv.K.S]; dup {
-					fail(where+":duplicate-field", "field "+kv.K.S+" appears twice in the forwarded payload")
-					return false
+			case c.Stress == "drop":
+				want = []string{"collector-immediate-dropped"}
+			case c.Trace == "self":
+				res := "queued"
+				if c.Queue == "full" {
+					res = "full"
 				}
-				gotF[kv.K.S] = loose(kv.V)
+				want = []string{"collector-" + c.Listener + "-" + res}
+			case c.Trace == "peer":
+				want = []string{"peer"}
 			}
-			for k, w := range wantF {
-				g, ok := gotF[k]
-				if !ok {
-					if strings.HasPrefix(k, "meta.") {
-						continue // reserved metadata is Refinery's to manage (checked by the probe/route logic above)
+			sort.Strings(want)
+			r.Distinct("distinct_nontrivial", class+"|"+c.Stress+"|"+c.Listener+"|"+strings.Join(want, "+"))
+			r.Distinct("observed_routes", strings.Join(got, "+"))
+			if strings.Join(got, "+") != strings.Join(want, "+") {
+				fail(fmt.Sprintf("%s/stress-%s:want[%s]got[%s]", class, c.Stress, strings.Join(want, "+"), strings.Join(got, "+")),
+					fmt.Sprintf("subject event (%s) took route(s) [%s], the statement prescribes [%s]", class, strings.Join(got, ", "), strings.Join(want, ", ")))
+				return
+			}
+
+			// ---- companions must each take exactly their own route too (no cross-talk inside a batch)
+			if companions {
+				cnt := map[string]int{}
+				for _, s := range o.upstream {
+					if m, ok := s.Event.Field("marker"); ok && m.S != "subject" {
+						cnt["upstream:"+m.S]++
 					}
-					fail(where+":field-lost", fmt.Sprintf("client field %q missing from the forwarded payload %s", k, s.Event.Data.Canon()))
+				}
+				for _, s := range o.peer {
+					if m, ok := s.Event.Field("marker"); ok && m.S != "subject" {
+						cnt["peer:"+m.S]++
+					}
+				}
+				for _, rec := range o.coll {
+					if m, _ := rec.Data["marker"].(string); m != "subject" {
+						cnt["collector:"+m]++
+					}
+				}
+				wantC := map[string]int{"upstream:before-none": 1, "upstream:after-none": 1, "collector:before-self": 1, "peer:after-peer": 1}
+				if c.Stress == "keep" {
+					// after-peer: immediate + probe to peer; before-self: immediate only
+					wantC = map[string]int{"upstream:before-none": 1, "upstream:after-none": 1, "collector:before-self": 1, "collector:after-peer": 1, "peer:after-peer": 1}
+				} else if c.Stress == "drop" {
+					wantC = map[string]int{"upstream:before-none": 1, "upstream:after-none": 1, "collector:before-self": 1, "collector:after-peer": 1}
+				}
+				if ev.J(cnt) != ev.J(wantC) {
+					fail("companions", fmt.Sprintf("other events of the same batch were routed %s, expected %s", ev.J(cnt), ev.J(wantC)))
+					return
+				}
+			}
+
+			// ---- attribute preservation
+			checkAttrs := func(s pipeline.Sent, where string, wantHost string) bool {
+				if s.BaseURL != wantHost {
+					fail(where+":destination", fmt.Sprintf("sent to %s, owner/destination is %s", s.BaseURL, wantHost))
 					return false
 				}
-				if g != w && !strings.HasPrefix(k, "meta.") {
-					fail(where+":field-changed", fmt.Sprintf("client field %q = %s forwarded as %s", k, w, g))
+				if s.APIKey != apiKey {
+					fail(where+":apikey", fmt.Sprintf("forwarded with API key %q, client sent %q", s.APIKey, apiKey))
 					return false
 				}
-			}
-			for k := range gotF {
-				if _, ok := wantF[k]; !ok && !strings.HasPrefix(k, "meta.") {
-					fail(where+":field-added", fmt.Sprintf("forwarded payload has extra field %q", k))
+				if s.Dataset != c.Dataset {
+					fail(where+":dataset", fmt.Sprintf("forwarded to dataset %q, client sent %q", s.Dataset, c.Dataset))
 					return false
 				}
+				if omitsRate {
+					// nothing supplied = rate 1: forwarded without a rate or with 1, never with a neighbour's
+					if s.Event.HasSampleRate && s.Event.SampleRate != 1 {
+						fail(where+":samplerate-invented", fmt.Sprintf("forwarded sample rate %s, the client supplied none (the batch members before and after it carry 3)", s.Event.SampleRateVal.Canon()))
+						return false
+					}
+				} else if !s.Event.HasSampleRate || s.Event.SampleRate != 7 {
+					fail(where+":samplerate", fmt.Sprintf("forwarded sample rate %s, client sent 7", s.Event.SampleRateVal.Canon()))
+					return false
+				}
+				if !s.Event.HasTime || !s.Event.Time.Equal(instant) {
+					fail(where+":timestamp", fmt.Sprintf("forwarded time %s, client sent %s", s.Event.TimeVal.Canon(), instant.Format(time.RFC3339Nano)))
+					return false
+				}
+				// fields: every client field with the same value; additions only under the reserved meta. prefix
+				wantF := map[string]string{}
+				for _, f := range fields {
+					wantF[f.Key] = loose(f.Val)
+				}
+				gotF := map[string]string{}
+				for _, kv := range s.Event.Data.Map {
+					if _, dup := gotF[kv.K.S]; dup {
+						fail(where+":duplicate-field", "field "+kv.K.S+" appears twice in the forwarded payload")
+						return false
+					}
+					gotF[kv.K.S] = loose(kv.V)
+				}
+				for k, w := range wantF {
+					g, ok := gotF[k]
+					if !ok {
+						if strings.HasPrefix(k, "meta.") {
+							continue // reserved metadata is Refinery's to manage (checked by the probe/route logic above)
+						}
+						fail(where+":field-lost", fmt.Sprintf("client field %q missing from the forwarded payload %s", k, s.Event.Data.Canon()))
+						return false
+					}
+					if g != w && !strings.HasPrefix(k, "meta.") {
+						fail(where+":field-changed", fmt.Sprintf("client field %q = %s forwarded as %s", k, w, g))
+						return false
+					}
+				}
+				for k := range gotF {
+					if _, ok := wantF[k]; !ok && !strings.HasPrefix(k, "meta.") {
+						fail(where+":field-added", fmt.Sprintf("forwarded payload has extra field %q", k))
+						return false
+					}
+				}
+				return true
 			}
-			return true
-		}
-		if len(want) == 1 && want[0] == "peer" {
-			if !checkAttrs(peerS[0], "peer-forward", n.Peers[0]) {
-				return
+			if len(want) == 1 && want[0] == "peer" {
+				if !checkAttrs(peerS[0], "peer-forward", n.Peers[0]) {
+					return
+				}
+				if v, ok := peerS[0].Event.Field("meta.trace_id"); ok && v.S != traceID {
+					fail("peer-forward:trace-id", fmt.Sprintf("forwarded meta.trace_id %q, client's trace ID %q", v.S, traceID))
+					return
+				}
+				r.Add("peer_forwards_compared", 1)
 			}
-			if v, ok := peerS[0].Event.Field("meta.trace_id"); ok && v.S != traceID {
-				fail("peer-forward:trace-id", fmt.Sprintf("forwarded meta.trace_id %q, client's trace ID %q", v.S, traceID))
-				return
+			if len(want) == 1 && want[0] == "upstream" {
+				// "straight to Honeycomb unsampled": destination, and nothing about the event re-sampled
+				if !checkAttrs(upS[0], "upstream", n.Upstream) {
+					return
+				}
+				r.Add("upstream_compared", 1)
 			}
-			r.Add("peer_forwards_compared", 1)
-		}
-		if len(want) == 1 && want[0] == "upstream" {
-			// "straight to Honeycomb unsampled": destination, and nothing about the event re-sampled
-			if !checkAttrs(upS[0], "upstream", n.Upstream) {
-				return
+			if len(want) == 2 { // peer-probe
+				if peerS[0].BaseURL != n.Peers[0] {
+					fail("probe:destination", "probe sent to "+peerS[0].BaseURL)
+					return
+				}
 			}
-			r.Add("upstream_compared", 1)
-		}
-		if len(want) == 2 { // peer-probe
-			if peerS[0].BaseURL != n.Peers[0] {
-				fail("probe:destination", "probe sent to "+peerS[0].BaseURL)
-				return
+			if r.Count("sampled") < 6 && idx[7] == 0 && idx[8] == 1 && idx[5] == 0 {
+				r.Add("sampled", 1)
+				r.Sample(map[string]any{"case": c, "routes": got})
 			}
-		}
-		if r.Count("sampled") < 6 && idx[7] == 0 && idx[8] == 1 && idx[5] == 0 {
-			r.Add("sampled", 1)
-			r.Sample(map[string]any{"case": c, "routes": got})
-		}
-	})
+		})
+	}
 	for i := 0; i < workers; i++ {
 		(<-pool).Close()
 	}
 	r.Set("rule", "for every case: multiset of routes taken by the subject event (decoded upstream bytes, decoded peer bytes, collector hand-overs) == the single route prescribed by the statement; peer-forwarded and upstream bytes decode to the client's key, dataset, sample rate, timestamp (ns) and fields")
 	r.Set("bounds", map[string]any{"traceKinds": traceKinds, "probe": probeVals, "idVariants": idVariants, "noneVariants": noneVariant,
 		"listeners": []string{"incoming", "peer"}, "stress": stressVals, "queue": queueVals, "encodings": encodings, "contentEncodings": contentEnc, "datasets": datasets})
+	r.Set("pass_after_reload", "IDFields.TraceNames = [tid2, trace.trace_id, traceId] by live reload; subject ID in tid2; content encoding identity, dataset ds; all other dimensions full")
 	r.Assume("stress relief: when the collector answers Stressed() and decides a span immediately, 'the collector handled it' is the one route; for a kept span owned by a peer one additional event marked meta.refinery.probe=true may go to the owner (documented probe mechanism) — never a second unmarked copy")
 	r.Assume("a collector that answers 'queue full' has still been the one route tried (the client is told 429); the event must not be sent anywhere else")
 	r.Assume("'without a trace ID' includes ID fields holding an empty string or a non-string value (C21 covers identity itself)")
